@@ -637,12 +637,25 @@ def run_nfa2dfa(case):
 def nfa2dfa_cases(draw, tier):
     nfa = draw(G.nfa_specs(max_states=3, min_sigma=1, max_sigma=2, eps_choices=["ε", "_"], pool=G.POOL[:8]))
     key = subset_key(nfa)
-    cls = draw(st.sampled_from(["key", "mutation", "mutation", "eps_move_added", "plus_unreachable_subset", "ill_formed"]))
+    cls = draw(st.sampled_from(["target_of_superset", "key", "mutation", "target_of_superset", "mutation", "eps_move_added", "plus_unreachable_subset", "ill_formed"]))
     omit = []
     if cls == "key":
         ans = key
     elif cls == "mutation":
         ans = draw(GA.mutate_fa(key))
+    elif cls == "target_of_superset":
+        # a typical confusion: the transition of a subset X is given the target that belongs to a larger subset Y containing X
+        ans = dict(key, d=[list(t) for t in key["d"]])
+        sets = {q: set(q[1:-1].split(",")) - {""} for q in key["Q"]}
+        tgt = {(p, a): q for p, a, q in key["d"]}
+        triples = [(x, y, a) for x in key["Q"] for y in key["Q"] if sets[x] < sets[y] for a in key["S"] if tgt[x, a] != tgt[y, a]]
+        if triples:
+            x, y, a = triples[draw(st.integers(0, len(triples) - 1))]
+            for t in ans["d"]:
+                if t[0] == x and t[1] == a:
+                    t[2] = tgt[y, a]
+        else:
+            cls = "key"
     elif cls == "eps_move_added":
         ans = dict(key, d=[list(t) for t in key["d"]])
         ans["d"].append([key["Q"][draw(st.integers(0, len(key["Q"]) - 1))], key["eps"], key["Q"][draw(st.integers(0, len(key["Q"]) - 1))]])
